@@ -135,10 +135,27 @@ def writer_case(ctx, case):
     if mode is not None:
         conn.options.compression_enabled = True
         conn.options.compression_threshold = mode
+    # how the caller manages its packet objects is its own business: a fresh
+    # object per write, or one object per packet id filled in anew and
+    # handed over again (variant 1), the latter also with a late outgoing
+    # listener of the user's that is done with every packet it has seen
+    # (variant 2; IgnorePacket after the write suppresses nothing)
+    variant = (len(pk) + sum(len(p) for _i, p in pk[:2])) % 3
+    objs = {}
+    if variant == 2:
+        from minecraft.exceptions import IgnorePacket
+        from minecraft.networking.packets import Packet
+
+        def done_with(packet):
+            raise IgnorePacket
+        conn.register_packet_listener(done_with, Packet, outgoing=True)
+    if variant and len({i for i, _p in pk}) < len(pk):
+        ctx.label('w_packet_object_rewritten_variant_%d' % variant)
     try:
         with conn._write_lock:
             for i, p in pk:
-                pkt = raw_class(i)()
+                pkt = objs.setdefault(i, raw_class(i)()) if variant \
+                    else raw_class(i)()
                 pkt.context = conn.context
                 pkt.data = p
                 conn._write_packet(pkt)
